@@ -37,12 +37,31 @@ impl GetIter {
     // Save oid for next request.
     // Return true if next request may be send or return false otherwise
     pub fn set_next_oid(&mut self, oid: &SnmpOid) -> bool {
-        if self.start_oid.as_borrowed().starts_with(oid) {
+        // Must be inside the subtree and strictly after the previous oid,
+        // otherwise a misbehaving agent makes the walk loop forever
+        if self.start_oid.as_borrowed().starts_with(oid) && Self::is_after(&oid.0, &self.next_oid) {
             self.next_oid.store(oid);
             true
         } else {
             false
         }
+    }
+    // Compare BER-encoded oids by subidentifiers: a > b
+    fn is_after(a: &[u8], b: &[u8]) -> bool {
+        fn subids(x: &[u8]) -> impl Iterator<Item = u64> + '_ {
+            let mut acc = 0u64;
+            x.iter().filter_map(move |&c| {
+                acc = (acc << 7) | (c & 0x7f) as u64;
+                if c & 0x80 == 0 {
+                    let v = acc;
+                    acc = 0;
+                    Some(v)
+                } else {
+                    None
+                }
+            })
+        }
+        subids(a).gt(subids(b))
     }
     pub fn get_max_repetitions(&self) -> i64 {
         self.max_repetitions
